@@ -151,6 +151,22 @@ Theorem C01_own_check_sound : forall tr, own_b tr = true -> answers_own tr.
 Proof. exact own_b_sound. Qed.
 Print Assumptions C01_own_check_sound.
 
+(* BULK.  [ARep n a] - n requests with the same callback programme, say - is exactly the action
+   a, n times in a row, in every state: so a history with a bulk operation IS the history with
+   the n single actions, and every theorem here speaks about thousands of outstanding requests
+   as it does about three.  [order]'s executable definition (tags looked up once per scan) reads
+   as: for each hinted tag the expired ids carrying it, then all expired ids, first occurrences. *)
+Theorem C01_bulk_is_n_singles : forall M n a s,
+  exec M (ARep n a) s = exec_prog M (repeat a (Z.to_nat n)) s.
+Proof. exact exec_rep. Qed.
+Print Assumptions C01_bulk_is_n_singles.
+
+Theorem C01_order_meaning : forall M h s,
+  order M h s =
+  dedup [] (flat_map (fun t => filter (fun id => tag_is s id t) (expired_ids M s)) h ++ expired_ids M s).
+Proof. exact order_unfold. Qed.
+Print Assumptions C01_order_meaning.
+
 Theorem C01_issue_unique : forall M ops,
   1 <= M -> noclash (trace_g M ops) -> issue_unique (trace_g M ops).
 Proof. exact model_issue_unique. Qed.
